@@ -80,6 +80,7 @@ class Evaluator:
         self.externals = externals or {}
         self.max_depth = max_depth
         self.calls = []                  # (method name) evaluated, in order
+        self.stores = []                 # (object kind, attribute) stored by the evaluated code
 
     # ------------------------------------------------------------------
     def call_method(self, name, selfobj, args=(), kwargs=None, depth=0):
@@ -132,6 +133,13 @@ class Evaluator:
         if isinstance(s, ast.Assign) and len(s.targets) == 1 and isinstance(s.targets[0], ast.Name):
             env[s.targets[0].id] = self.expr(s.value, env, depth)
             return
+        if isinstance(s, ast.Assign) and len(s.targets) == 1 and isinstance(s.targets[0], ast.Attribute):
+            base = self.expr(s.targets[0].value, env, depth)
+            if isinstance(base, Obj):
+                base.attrs[s.targets[0].attr] = self.expr(s.value, env, depth)
+                self.stores.append((base.kind, s.targets[0].attr))
+                return
+            raise Inconclusive("store to attribute of %r" % (base,))
         if isinstance(s, ast.Raise):
             if s.exc is None:
                 raise Raised('reraise')
@@ -235,11 +243,35 @@ class Evaluator:
             return True
         if isinstance(e, (ast.Tuple, ast.List)):
             return [self.expr(x, env, depth) for x in e.elts]
+        if isinstance(e, (ast.GeneratorExp, ast.ListComp, ast.SetComp)):
+            return self.comp(e, env, depth)
         if isinstance(e, ast.JoinedStr):
             return Sentinel("fmt:" + " ".join(ast.unparse(e).split()))
         if isinstance(e, ast.Call):
             return self.call(e, env, depth)
         raise Inconclusive("expression %s" % type(e).__name__)
+
+    def comp(self, e, env, depth):
+        out = []
+
+        def rec(i, env2):
+            if i == len(e.generators):
+                out.append(self.expr(e.elt, env2, depth))
+                return
+            g = e.generators[i]
+            it = self.expr(g.iter, env2, depth)
+            if not isinstance(it, (list, tuple, set, frozenset)):
+                raise Inconclusive("comprehension over %r" % (it,))
+            for x in it:
+                env3 = dict(env2)
+                if isinstance(g.target, ast.Name):
+                    env3[g.target.id] = x
+                else:
+                    raise Inconclusive("comprehension target")
+                if all(self.truth(self.expr(c, env3, depth)) for c in g.ifs):
+                    rec(i + 1, env3)
+        rec(0, env)
+        return out
 
     def eq(self, a, b):
         if isinstance(a, (Obj, Sentinel)) or isinstance(b, (Obj, Sentinel)):
@@ -285,6 +317,12 @@ class Evaluator:
                 raise Inconclusive("isinstance")
             if f.id in ('bool',) and len(args) == 1:
                 return self.truth(args[0])
+            if f.id in ('all', 'any') and len(args) == 1 and isinstance(args[0], (list, tuple)):
+                return (all if f.id == 'all' else any)(self.truth(x) for x in args[0])
+            if f.id == 'len' and len(args) == 1 and isinstance(args[0], (list, tuple, set, frozenset)):
+                return len(args[0])
+            if f.id in ('list', 'tuple') and len(args) == 1 and isinstance(args[0], (list, tuple)):
+                return list(args[0])
             if f.id in self.prog.classes:
                 return Sentinel("new:" + f.id)
             if f.id in ('print', 'str', 'len', 'type'):
